@@ -302,7 +302,7 @@ func (p *parser) parse(minPrec int) *Expr {
 
 func (p *parser) parseUnary() *Expr {
 	t := p.peek()
-	if t.kind == "op" && (t.text == "!" || t.text == "-" || t.text == "^") {
+	if t.kind == "op" && (t.text == "!" || t.text == "-" || t.text == "^" || t.text == "*") {
 		p.next()
 		x := p.parseUnary()
 		return &Expr{Op: "un", Name: t.text, Args: []*Expr{x}}
